@@ -4,7 +4,7 @@ use krp_harness::{chain, dump, gen, grid, kernel, ops, run_ops_text};
 
 fn usage() -> ! {
     eprintln!(
-        "usage:\n  krp-harness run OPSFILE          (OPSFILE `-` = stdin)\n  krp-harness kernel NAME SEED COUNT   (NAME = deleg|undeleg|ddiv|nwr|swapinfo|drewards)\n  krp-harness gen PROFILE SEED NHIST LEN OPSFILE OBSFILE   (PROFILE = general|pricing|unbond|rewards|registry|token|config|pause|exit)\n  krp-harness grid OPSFILE OBSFILE   (authorisation grid)\n  krp-harness kernel-eval NAME     (stdin: `ARGS` lines; prints `ARGS => RESULT` from the real code)\n  krp-harness roundtrip OPSFILE    (parse and re-print every operation)\n  krp-harness explain OPSFILE      (like run, but prints op lines and failure reasons; diagnostics only)\nenvironment: KRP_NO_CACHE=1 disables the (sound) memoisation of dump fragments"
+        "usage:\n  krp-harness run OPSFILE          (OPSFILE `-` = stdin)\n  krp-harness kernel NAME SEED COUNT   (NAME = deleg|undeleg|ddiv|nwr|swapinfo|drewards)\n  krp-harness gen PROFILE SEED NHIST LEN OPSFILE OBSFILE   (PROFILE = general|pricing|unbond|rewards|registry|token|config|pause|exit|synth)\n  krp-harness grid OPSFILE OBSFILE   (authorisation grid)\n  krp-harness kernel-eval NAME     (stdin: `ARGS` lines; prints `ARGS => RESULT` from the real code)\n  krp-harness roundtrip OPSFILE    (parse and re-print every operation)\n  krp-harness explain OPSFILE      (like run, but prints op lines and failure reasons; diagnostics only)\nenvironment: KRP_NO_CACHE=1 disables the (sound) memoisation of dump fragments"
     );
     std::process::exit(2);
 }
